@@ -1,18 +1,34 @@
 // ---- shims/auth_env.rs : environment of the authorization module (unit c08_authorization) ------
-// Opaque value types mentioned by the rule types, the ghost "what the auth zone stack shows"
-// value carried by the system API, and the two API traits the real code is generic over.
+// Opaque value types mentioned by the rule types, the SBOR value container, and the ghost VALUE
+// `ApiState` (what the auth zone stack shows + substate contents + open handles + error history)
+// that the assumed contracts of the kernel API are written over.
 // Nothing in here is under contract; every external_body / uninterp item is trusted base.
 pub mod auth_env {
     use vstd::prelude::*;
 
-    pub struct RuntimeError;
+    /// radix_engine::errors::RuntimeError (opaque: values are distinguishable, content irrelevant)
+    #[verifier::external_body]
+    pub struct RuntimeError { _x: u8 }
+    #[derive(Debug)]
+    pub struct DecodeError;
+    #[derive(Debug)]
+    pub struct EncodeError;
 
     /// radix-common NodeId: 30 opaque bytes
     #[derive(Clone, Copy, PartialEq, Eq)]
     pub struct NodeId(pub [u8; 30]);
-    /// radix-common ResourceAddress: a NodeId with a checked entity type (opaque here)
+    /// radix-common ResourceAddress: a NodeId with a checked entity type
     #[derive(Clone, Copy, PartialEq, Eq)]
     pub struct ResourceAddress(pub NodeId);
+    /// radix-common GlobalAddress(NodeId)
+    #[derive(Clone, Copy, PartialEq, Eq)]
+    pub struct GlobalAddress(pub NodeId);
+    impl GlobalAddress {
+        pub fn as_node_id(&self) -> (r: &NodeId) ensures *r == self.0 { &self.0 }
+    }
+    /// radix-common BlueprintId (opaque)
+    #[verifier::external_body]
+    pub struct BlueprintId { _x: u8 }
     /// radix-common NonFungibleLocalId (opaque)
     #[verifier::external_body]
     pub struct NonFungibleLocalId { x: Vec<u8> }
@@ -27,10 +43,63 @@ pub mod auth_env {
     #[derive(Clone, Copy)]
     pub struct Decimal(pub [u64; 3]);
 
-    /// Ghost VALUE describing what the auth zone stack reachable from a given auth zone node can
-    /// show: the meaning of `auth_zone_stack_matches` (local implicit proofs, the global caller's
-    /// zone chain, the parent chain; proofs, simulated resources and implicit non-fungibles).
-    /// Uninterpreted: the stack walk itself is NOT under contract in this unit.
+    pub type SubstateHandle = u32;
+    /// radix_engine_interface::api::LockFlags (bitflags; only `read_only()` is used)
+    #[derive(Clone, Copy)]
+    pub struct LockFlags { pub bits: u32 }
+    impl LockFlags {
+        pub fn read_only() -> (r: Self) ensures r.bits == 0 { LockFlags { bits: 0 } }
+    }
+
+    // ---- SBOR ------------------------------------------------------------------------------------
+    /// radix_common::data::scrypto::ScryptoEncode; ghost: the bytes the value encodes to
+    pub trait ScryptoEncode {
+        spec fn sbor_bytes(&self) -> Result<Seq<u8>, EncodeError>;
+    }
+    /// sbor: `impl<T: Encode> Encode for &T` encodes the referent
+    impl<T: ScryptoEncode> ScryptoEncode for &T {
+        open spec fn sbor_bytes(&self) -> Result<Seq<u8>, EncodeError> { (**self).sbor_bytes() }
+    }
+    /// radix_common::data::scrypto::ScryptoDecode (marker)
+    pub trait ScryptoDecode {}
+    impl<T> ScryptoDecode for T {}
+
+    /// ASSUMED: scrypto_encode is a function of the value (its ghost `sbor_bytes`)
+    #[verifier::external_body]
+    pub fn scrypto_encode<T: ScryptoEncode + ?Sized>(value: &T) -> (r: Result<Vec<u8>, EncodeError>)
+        ensures
+            r matches Ok(b) ==> value.sbor_bytes() == Ok::<Seq<u8>, EncodeError>(b@),
+            r is Err ==> value.sbor_bytes() is Err,
+    { unimplemented!() }
+
+    /// radix_engine_interface::types::IndexedScryptoValue (opaque SBOR payload)
+    #[verifier::external_body]
+    pub struct IndexedScryptoValue { _x: Vec<u8> }
+    impl IndexedScryptoValue {
+        /// ghost: the result of decoding the payload as a `T`
+        pub uninterp spec fn typed<T>(&self) -> Result<T, DecodeError>;
+        #[verifier::external_body]
+        pub fn as_typed<T: ScryptoDecode>(&self) -> (r: Result<T, DecodeError>)
+            ensures r == self.typed::<T>()
+        { unimplemented!() }
+        #[verifier::external_body]
+        pub fn from_typed<T: ScryptoEncode + ?Sized>(value: &T) -> (r: Self)
+        { unimplemented!() }
+    }
+
+    // ---- ghost state of the system API -----------------------------------------------------------
+    /// ghost view of a SubstateKey (Vec<u8> keys by content)
+    pub ghost enum SubKey { Field(u8), Map(Seq<u8>), Sorted(Seq<u8>, Seq<u8>) }
+    /// ghost substate location: node, partition number, key
+    pub ghost struct Loc { pub node: NodeId, pub partition: u8, pub key: SubKey }
+
+    /// Ghost VALUE: the part of the world the authorization functions read.
+    /// * `shows_*`: what the auth zone stack reachable from an auth zone node can show -- the
+    ///   meaning of `Authorization::auth_zone_stack_matches` (local implicit proofs, the global
+    ///   caller's zone chain, the parent chain; proofs, simulated resources, implicit non-fungibles).
+    ///   Uninterpreted: the stack walk itself is NOT under contract in this unit.
+    /// * `substate`: the value a read-only open + read of a location yields (an absent key-value
+    ///   entry reads as the virtual default handed to `kernel_open_substate_with_default`).
     #[verifier::external_body]
     pub ghost struct AuthEnv { _x: int }
     impl AuthEnv {
@@ -40,16 +109,27 @@ pub mod auth_env {
         pub uninterp spec fn shows_resource(self, zone: NodeId, res: ResourceAddress) -> bool;
         /// a single visible proof of this resource has at least this amount
         pub uninterp spec fn shows_amount(self, zone: NodeId, res: ResourceAddress, amount: Decimal) -> bool;
+        pub uninterp spec fn substate(self, loc: Loc) -> IndexedScryptoValue;
+    }
+    pub ghost struct ApiState {
+        pub env: AuthEnv,
+        /// substate handles currently open
+        pub handles: Map<SubstateHandle, Loc>,
+        /// history of every error returned by a kernel / auth-zone call
+        pub faults: Seq<RuntimeError>,
+    }
+    /// A call either succeeds and leaves the whole ghost state as it was, or fails, which appends
+    /// exactly the returned error to the history (open handles are not constrained then).
+    pub open spec fn ok_or_fault<T>(pre: ApiState, post: ApiState, r: Result<T, RuntimeError>) -> bool {
+        match r {
+            Ok(_) => post == pre,
+            Err(e) => post.env == pre.env && post.faults == pre.faults.push(e),
+        }
     }
 
     /// radix_engine_interface::api::SystemObjectApi<E> -- no method of it is called directly by the
     /// functions under contract
     pub trait SystemObjectApi<E> {}
-
-    /// radix_engine::kernel::kernel_api::KernelSubstateApi<L>; carries the ghost environment
-    pub trait KernelSubstateApi<L> {
-        spec fn env(&self) -> AuthEnv;
-    }
 
     /// num_traits::Zero (only `is_zero` on u8 is used)
     pub trait Zero: Sized {
